@@ -211,7 +211,37 @@ def check(ctx, run):
             full = t['callee'].get('full', '')
             if canon(nm).endswith(('PartialEq::eq', 'PartialEq::ne', 'SlicePartialEq::equal', 'Ord::cmp')) and ('[u8]' in full):
                 slice_eq_users.append((fn, t))
-    if slice_eq_users:
+    # a raw comparison next to an inlined number comparison (the helper's case analysis spelled out in the walker: decode both, compare as
+    # numbers, bytes only when a decode fails or the kind is not NUMBER_TAG) is judged path by path
+    inline = {}
+    for fn, t in slice_eq_users:
+        b_ = f.bodies[fn]
+        if not any(called(callee_name(t_), 'Number::decode') for _, t_ in b_.calls()):
+            continue
+        paths_, _lp = editing.region_paths(b_)
+        verdicts = []
+        for q in paths_:
+            for e in q.calls():
+                if not (canon(e[1]).endswith(('PartialEq::eq', 'PartialEq::ne', 'SlicePartialEq::equal')) and '[u8]' in str(e[5]['callee'].get('full', '')) and e[5].get('line') == t.get('line')):
+                    continue
+                cs = q.conds[:e[6]]
+                not_num = any((c[0][0] == 'bin' and c[0][1] in ('Eq', 'Ne') and any(const_of(x) == g('NUMBER_TAG') for x in (c[0][2], c[0][3])) and (c[0][1] == 'Eq') != bool(c[2])) or
+                              (c[1] == 'ne' and isinstance(c[2], tuple) and g('NUMBER_TAG') in c[2] and 'type_code' in show(c[0])) or
+                              (c[1] == 'eq' and c[2] != g('NUMBER_TAG') and 'type_code' in show(c[0]) and c[0][0] != 'bin') for c in cs)
+                dec_failed = any(c[0][0] == 'discr' and any(is_call(s_, 'Number::decode') for s_ in subterms(c[0])) and not (c[1] == 'eq' and c[2] == 0 and is_call(c[0][1], 'Number::decode')) for c in cs)
+                opt_local = any(c[0][0] == 'discr' and deref_all(c[0][1])[0] in ('init', 'hav', 'loc') for c in cs)
+                verdicts.append('ok' if (not_num or dec_failed) else ('unsure' if opt_local else 'bad'))
+        if verdicts:
+            inline[(fn, t.get('line'))] = 'bad' if 'bad' in verdicts else ('unsure' if 'unsure' in verdicts else 'ok')
+    judged = [v for v in inline.values()]
+    if slice_eq_users and inline and len(inline) == len({(fn, t.get('line')) for fn, t in slice_eq_users}) and 'bad' not in judged:
+        fn, t = slice_eq_users[0]
+        if 'unsure' in judged:
+            run.undecided('R12.1', fn, 'raw-compare', 'the walker compares payload bytes itself next to an inlined number comparison; on some path the condition that selects the byte comparison '
+                          '(an Option / Result held in a local) was not traced back to "not a number, or a decode failed": not decided', f"{t.get('file')}:{t.get('line')}")
+        else:
+            run.proved('R12.1', fn, 'raw-compare', 'payload bytes are compared directly only where the kind is not NUMBER_TAG or a decode failed', f"{t.get('file')}:{t.get('line')}")
+    elif slice_eq_users:
         fn, t = slice_eq_users[0]
         run.violation('R12.1', fn, 'raw-compare', 'payload bytes are compared directly in the containment walker: equal numbers in different encodings (1, 1.0, Int64(1)) do not match, '
                       'unlike compare and the text path', f"{t.get('file')}:{t.get('line')}")
@@ -255,7 +285,13 @@ def check(ctx, run):
         ok = need <= set(users)
         if not ok and 'functions::contains_jsonb' in users and 'functions::array_contains' not in f.bodies:
             ok = True
-        (run.proved if ok else run.violation)('R12.1', 'functions::scalar_eq', 'used-by', f'used by {users}' if ok else f'scalar_eq is only used by {users}: some scalar comparison of the walker bypasses it')
+        missing_ = sorted(need - set(users))
+        inlined_ = [m_ for m_ in missing_ if m_ in f.bodies and sum(1 for _, t_ in f.bodies[m_].calls() if called(callee_name(t_), 'Number::decode')) >= 1
+                    and any('Number' in callee_name(t_) and canon(callee_name(t_)).endswith(('PartialEq::eq', 'PartialEq::ne', 'Ord::cmp', 'PartialOrd::partial_cmp')) for _, t_ in f.bodies[m_].calls())]
+        if not ok and missing_ and inlined_ == missing_:
+            run.undecided('R12.1', 'functions::scalar_eq', 'used-by', f'{missing_} no longer call(s) scalar_eq but decode and compare numbers themselves: judged by the raw-compare clause, not here')
+        else:
+            (run.proved if ok else run.violation)('R12.1', 'functions::scalar_eq', 'used-by', f'used by {users}' if ok else f'scalar_eq is only used by {users}: some scalar comparison of the walker bypasses it')
     numcodec.r18_4(ctx, run, rule='R12.1/R18.4')
     tree_twin_guards(ctx, run, 'R12.2')
     # byte twin: candidate filter depends on the entry kind only
